@@ -113,8 +113,8 @@ def inline_helpers(prog, module, keep=(), also=()):
             return False
         if g.qname in also:
             return True
-        from ..sym import UNIT_HELPERS
-        if g.name.startswith("_") and not g.name.startswith("__"):
+        from ..sym import UNIT_HELPERS, private_class
+        if (g.name.startswith("_") and not g.name.startswith("__")) or private_class(g):
             # private helpers of the module itself always; those of other modules unless the rules treat them as units of their own
             return g.module.name == module or g.qname not in UNIT_HELPERS
         return False
